@@ -109,11 +109,13 @@ void AbstractParameterAliasable::aliasParameters(const std::string& p1, const st
     }
   }
   else
-  // We use a small trick here, we test the constraints on the basis of their string description (C++ does not provide a default operator==() :( ).
-  if (param2->hasConstraint() && (param1->getConstraint()->getDescription() != param2->getConstraint()->getDescription()))
+  if (param2->hasConstraint())
   {
+    // Both get the intersection. The string descriptions (C++ does not provide a default operator==() :( ) only tell whether a
+    // warning is due: bounds that differ beyond the printed digits have equal descriptions but are not the same constraint.
     std::shared_ptr<ConstraintInterface> nc(*param2->getConstraint() & *param1->getConstraint());
-    ApplicationTools::displayWarning("Aliasing parameter " + p2 + " to " + p1 + " with different constraints. They get the intersection of both constraints : " + nc->getDescription());
+    if (param1->getConstraint()->getDescription() != param2->getConstraint()->getDescription())
+      ApplicationTools::displayWarning("Aliasing parameter " + p2 + " to " + p1 + " with different constraints. They get the intersection of both constraints : " + nc->getDescription());
 
     param2->setConstraint(nc);
     param1->setConstraint(nc);
